@@ -59,6 +59,18 @@ def gen_cases(rng, tier):
                 cases.append({'id': 'c06-spec-%d' % j, 'cfg': cfg, 'hist': h, 'sub': 'lsim', 'spec': kind,
                               'tags': {'variant': variant, 'T': T, 'mode': 'statement-' + kind}})
                 j += 1
+    # release variants, two one-shot keys in one session with a plain key held across the second activation: letting that key go ends
+    # both one-shots (it was pressed after the first one-shot), the key typed afterwards is plain (deterministic shapes)
+    for variant in ['one-shot-release', 'one-shot-release-pcancel']:
+        for T in (100, 400):
+            for g in (8, 30):
+                for red in (0, 1, 5):
+                    cfg = '(defcfg rapid-event-delay %d)\n(defsrc a s d f g)\n(deflayer l0 (%s %d lsft) (%s %d lctl) c x y)' % (red, variant, T, variant, T)
+                    h = ['t5', 'p0,30', 't3', 'r0,30', 't%d' % g, 'p0,33', 't%d' % g, 'p0,31', 't3', 'r0,31', 't%d' % g, 'r0,33', 't%d' % (g + 6),
+                         'p0,34', 't9', 'r0,34', 't%d' % (T + 60)]
+                    cases.append({'id': 'c06-spec-%d' % j, 'cfg': cfg, 'hist': h, 'sub': 'lsim', 'spec': 'stacked-release',
+                                  'tags': {'variant': variant, 'T': T, 'mode': 'statement-stacked-release'}})
+                    j += 1
     # the one-shot countdown must keep the processing loop awake: a one-shot key held alone past its timeout, released, then a plain key
     from checks.common import loop_pairs
     lp = []
@@ -96,6 +108,12 @@ def oracle(c, it):
             last = cur
     if 45 not in at or 21 not in at:
         return 'the plain keys pressed after the one-shot did not both come out: %s' % sorted(at)
+    if c['spec'] == 'stacked-release':
+        if 42 not in at[45]:
+            return 'the key pressed right after the first one-shot was not modified (keys down with it: %s)' % sorted(at[45])
+        if 42 in at[21] or 29 in at[21]:
+            return 'the key held across the second one-shot was released, yet the key typed after that was still modified (keys down with it: %s)' % sorted(at[21])
+        return ('keys left down at the end: %s' % sorted(last)) if last else None
     if c['spec'] == 'next-key' and 42 not in at[45]:
         return 'the key pressed right after the one-shot was not modified (keys down with it: %s)' % sorted(at[45])
     if c['spec'] == 'expire' and 42 in at[45]:
